@@ -9,12 +9,12 @@ VERIF = os.path.dirname(os.path.dirname(os.path.abspath(__file__)))
 CLAIMS = {
     'C01': dict(
         technique='definite assignment + gated value graph (abstract evaluation of the source) compared with the documented Newton/eigh formulas by computer-algebra normal form; sibling cross-check',
-        text='Static: every path of the root routines binds what it reads (incl. the 1x1 branch); the coupled Newton step, start point, stopping test, retry damping, convergence select, binary matrix power, Rayleigh-quotient power iteration on the masked matrix, eigh clamp/root/error formulas, error provenance and mask prologue / all-padding epilogue of the sibling routines are derived from the current source as value-graph terms and shown equal to the documented formulas. These are necessary conditions of C01; numerical accuracy itself is not decided.',
+        text='Static: every path of the root routines binds what it reads (incl. the 1x1 branch); the coupled Newton step, start point, stopping test, retry damping, convergence select, binary matrix power, Rayleigh-quotient power iteration on the masked matrix, eigh clamp/root/error formulas, error provenance and mask prologue / all-padding epilogue of the sibling routines are derived from the current source as value-graph terms and shown equal to the documented formulas. These are necessary conditions of C01; numerical accuracy itself is not decided. Also: what the eigh-based routines decompose is exactly A + ridge_epsilon*max(max_ev, tol)*I on the masked input; the zero guard of the eigenvalue power is decided by point evaluation (it must select 0 whenever max(e, ridge) is not positive - found F20 - and keep the root whenever it is); the all-padding epilogue tests exactly padding_start == 0; options are forwarded unchanged.',
         note='Trusted: python ast, the pvstatic evaluator (casts transparent, jax primitives uninterpreted), sympy cancellation. Undecided: accuracy/residual bound/finiteness/symmetry (floating point), LOBPCG-deflated path formulas.',
         design='4/C01'),
     'C02': dict(
         technique='gated value graph of _transform_grad / statistics update / block contraction compared, per configuration valuation, with an independent restatement of the documented math by computer-algebra normal form (translation-validation style, static)',
-        text='Static: for every valuation of the configuration atoms of the per-parameter transform (7 graft types x skip x lr coupling x lr schedule x weight decay x wd coupling x momentum kind x nesterov x clipping; covering set in quick, all 1792 in thorough) the returned update and the three rebuilt state slots are shown equal, as formal expressions over uninterpreted jax primitives, to the documented formulas; statistics/preconditioners/avg_grad/metrics pass through; exponent = 2 x preconditioned dims unless overridden at both consumers; statistics weights (beta2, where(beta2==1, beta2, 1-beta2)), Gram update over all-but-one axes, block-major running statistic index; block preconditioning contracts axes in order and rolls skipped axes. Necessary conditions of C02; numeric equality with a float64 reference is not decided.',
+        text='Static: for every valuation of the configuration atoms of the per-parameter transform (7 graft types x skip x lr coupling x lr schedule x weight decay x wd coupling x momentum kind x nesterov x clipping; covering set in quick, all 1792 in thorough) the returned update and the three rebuilt state slots are shown equal, as formal expressions over uninterpreted jax primitives, to the documented formulas; statistics/preconditioners/avg_grad/metrics pass through; exponent = 2 x preconditioned dims unless overridden at both consumers; statistics weights (beta2, where(beta2==1, beta2, 1-beta2)), Gram update over all-but-one axes, block-major running statistic index; block preconditioning contracts axes in order and rolls skipped axes. Necessary conditions of C02; numeric equality with a float64 reference is not decided. Also: the history starts from matrix_epsilon*I statistics and identity (packed: zero) preconditioners, replicated and sharded; the refresh dispatcher, the excluded-parameter predicate, the partitioner walk and the sharded record conversions are as documented.',
         note='Trusted: the restated formulas (SPEC in rules/C02.py) are the documented math; quantisation wrappers/casts value-transparent; preconditioned_grad uninterpreted at the top level. Undecided: numerical agreement, root correctness (C01).',
         design='4/C02'),
     'C03': dict(
@@ -24,7 +24,7 @@ CLAIMS = {
         design='4/C03'),
     'C04': dict(
         technique='cadence rules on the gated value graph: count+1 at every state constructor, guard normal form count % interval == 0 with call-site tracing of the step argument, identity-arm (pass-through) check of every guarded refresh, warm-up comparator/polarity, interval lower bound',
-        text='Static: all six update paths rebuild state with count = incoming count + 1; every refresh guard (DS statistics, DS roots in 3 modes x valuations, Tearfree Shampoo x2, Sketchy) normalises to incoming_count % configured_interval == 0 and the count reaching the helpers is state.count unmodified; the not-taken arm returns the incoming slots themselves (statistics, blocks, sketches, metrics; ekfac restore of 5 sketch slots); roots are computed from the statistics of the same step (previous refresh in sharded mode); warm-up switch is count >= start with the preconditioned value on the true side; scheduled interval clamped >= 1. Necessary conditions of C04.',
+        text='Static: all six update paths rebuild state with count = incoming count + 1; every refresh guard (DS statistics, DS roots in 3 modes x valuations, Tearfree Shampoo x2, Sketchy) normalises to incoming_count % configured_interval == 0 and the count reaching the helpers is state.count unmodified; the not-taken arm returns the incoming slots themselves (statistics, blocks, sketches, metrics; ekfac restore of 5 sketch slots); roots are computed from the statistics of the same step (previous refresh in sharded mode); warm-up switch is count >= start with the preconditioned value on the true side; scheduled interval clamped >= 1. Necessary conditions of C04. Also: no root computation is reachable off the guard; the dispatcher runs the every-step function exactly when the interval is 1; the early return of the incoming states is taken exactly when there are no statistics; the three refresh functions agree on when the interval is scheduled.',
         note='Trusted: lax.cond/efficient_cond evaluate one arm and return it bit-for-bit; tree.map is leaf-wise. Undecided: traced non-integer schedule values; numerical agreement of roots with statistics.',
         design='4/C04'),
     'C05': dict(
@@ -39,7 +39,7 @@ CLAIMS = {
         design='4/C06'),
     'C07': dict(
         technique='definite assignment; KIND abstract interpretation (pytree skeletons) with the initial state fed through the inlined update path per configuration valuation; cond-arm agreement; sibling cross-check of the sharded init/shape/pspec triple; assertion folding vs constructor validation; lints',
-        text='Static: package-wide definite assignment (251 functions); the pytree skeleton of the initial state of a preconditioned and a skipped parameter is pushed through _compute_stats -> _compute_preconditioners (pmap and pmap-quantized, root routines inlined) -> _transform_grad for every consistent valuation of 11 layout atoms (covering set quick, all ~900 thorough) and must come back unchanged, with both arms of every traced conditional on the way building the same tree; same for SM3 and Tearfree Shampoo/Sketchy; the sharded init / shape-dtype / partition-spec functions build one record, count statistics under the same guard, pad by (-N) mod D, take the maximal size over the same parameters and declare the dtypes init constructs; dispatch siblings agree; no axis-less squeeze; configuration-only assertions cannot fail for an accepted configuration; no dead store of a computed value. Necessary conditions of C07.',
+        text='Static: package-wide definite assignment (251 functions); the pytree skeleton of the initial state of a preconditioned and a skipped parameter is pushed through _compute_stats -> _compute_preconditioners (pmap and pmap-quantized, root routines inlined) -> _transform_grad for every consistent valuation of 11 layout atoms (covering set quick, all ~900 thorough) and must come back unchanged, with both arms of every traced conditional on the way building the same tree; same for SM3 and Tearfree Shampoo/Sketchy; the sharded init / shape-dtype / partition-spec functions build one record, count statistics under the same guard, pad by (-N) mod D, take the maximal size over the same parameters and declare the dtypes init constructs; dispatch siblings agree; no axis-less squeeze; configuration-only assertions cannot fail for an accepted configuration; no dead store of a computed value. Necessary conditions of C07. Also: the sharded update returns the records it received field by field and both record conversions are complete; roots are cut back to their own announced shape; the stale carry of the refresh cond has the taken arm\'s list lengths; all per-axis Sketchy buffers derive from one sketch rank.',
         note='Trusted: arrays are leaves (shapes/dtypes not tracked except in the sharded declaration); tree.map/all_gather preserve structure; _pjit_compute_preconditioners unreachable. Undecided: update dtype under mixed precision, shape-dependent assertions, arbitrary trace-time errors.',
         design='4/C07'),
     'C08': dict(
@@ -49,27 +49,27 @@ CLAIMS = {
         design='4/C08'),
     'C09': dict(
         technique='DEG abstract interpretation (homogeneity degrees in gradient scale and decay, linear constraint solving) on the value graph of the three FD updates; algebraic identities (l\' + t\')^(-1/p), cut-off index agreement, unfolding normal form',
-        text='Static, for Distributed Shampoo _fd_update_root, Tearfree Sketchy _update_axis (ekfac / relative-epsilon valuations) and OCO _fd_update_fn (4 algorithms): the update equations are homogeneous in the gradient scale with eigenvalues/escaped mass covariance-level and sketch roots root-level, each new slot has its old degree, and the pure-history part of every stored quantity is discounted by beta^(degree/2) (zero-gradient step scales V diag(l) V\' and t by the same beta); retained values/vectors are the first k of one SVD with cut-off s[k] (OCO: last row, rho = s[-1]); t\' = beta t + cutoff^2; stored inverse roots are (l\' + t\' [+eps])^(-1/p) of the same step with clamps at 0; the factored matrix is [sqrt(beta) V sqrt(l), unfolding of the gradient along the axis]. Necessary conditions of C09.',
+        text='Static, for Distributed Shampoo _fd_update_root, Tearfree Sketchy _update_axis (ekfac / relative-epsilon valuations) and OCO _fd_update_fn (4 algorithms): the update equations are homogeneous in the gradient scale with eigenvalues/escaped mass covariance-level and sketch roots root-level, each new slot has its old degree, and the pure-history part of every stored quantity is discounted by beta^(degree/2) (zero-gradient step scales V diag(l) V\' and t by the same beta); retained values/vectors are the first k of one SVD with cut-off s[k] (OCO: last row, rho = s[-1]); t\' = beta t + cutoff^2; stored inverse roots are (l\' + t\' [+eps])^(-1/p) of the same step with clamps at 0; the factored matrix is [sqrt(beta) V sqrt(l), unfolding of the gradient along the axis]. Necessary conditions of C09. Also (guard discipline, by point evaluation): at the reference point of a healthy retained direction every clamp, mask and safe division on the stored fields is the identity; an off-unit column is dropped; at the all-zero state every inverse power is guarded to 0.',
         note='Trusted: homogeneity of singular values/vectors; masks and epsilons degree 0. Undecided: the PSD bracket, orthonormality, exact low-rank tracking (numerical linear algebra); linear_approx_tail heuristic.',
         design='4/C09'),
     'C10': dict(
         technique='symbolic slot regions (intervals linear in d, r) for the packed layout writer/reader with disjointness decided on the admissible cone; predicate truth tables; value-graph normal forms of the compressed application and of _low_rank_root; call-argument flow of the signed rank',
-        text='Static: each of the 6 fields written by _fd_low_rank_pack is read by _fd_low_rank_unpack from the same region and the regions are pairwise disjoint for all r >= 1, d >= r+3; wrappers route fields correctly; buffer (d,|r|+2) with no pinned dtype; fields must be start-anchored to survive the pad/slice round trip of the replicated update (known finding F18 for eigvals / has_zeros); _precond_dim < d <=> _should_compress on all 6 abstract states and the signed configured rank reaches predicate and both special roots; the compressed application is c(g - gVV^T) + (gV e)V^T with the unpacked flag alone selecting the unchanged gradient; _low_rank_root keeps the first |r| of the rolled (negative rank) or flipped spectrum and averages the rest over the unpadded dims. Necessary conditions of C10.',
+        text='Static: each of the 6 fields written by _fd_low_rank_pack is read by _fd_low_rank_unpack from the same region and the regions are pairwise disjoint for all r >= 1, d >= r+3; wrappers route fields correctly; buffer (d,|r|+2) with no pinned dtype; fields must be start-anchored to survive the pad/slice round trip of the replicated update (known finding F18 for eigvals / has_zeros); _precond_dim < d <=> _should_compress on all 6 abstract states and the signed configured rank reaches predicate and both special roots; the compressed application is c(g - gVV^T) + (gV e)V^T with the unpacked flag alone selecting the unchanged gradient; _low_rank_root keeps the first |r| of the rolled (negative rank) or flipped spectrum and averages the rest over the unpadded dims. Necessary conditions of C10. Also: every call of the two compression predicates passes (rank, dimension) in that order; the zero guard of _low_rank_root is decided by point evaluation (F20).',
         note='Trusted: numpy indexing semantics. Undecided: numerical agreement with the dense matrix; eigendecomposition accuracy.',
         design='4/C10'),
     'C11': dict(
         technique='value-graph normal forms of quantize / to_float / from_float_value per (dtype, extract_diagonal) valuation; constant, rounding-primitive, operand-order (overflow) and axis rules; writer/reader dispatch agreement; re-wrap call-site lint',
-        text='Static: bucket counts 127 / 32767; the integer cast is applied to jnp.round of (x [- diag]) / where(b > 0, b, 1) with the input itself as numerator (no pre-scaling that could overflow) and the axis-0 bucket max|x|/count re-expanded on axis 0; dequantisation is payload * bucket (+ diag of the stored diagonal, exactly); writer and reader handle the same dtype set and other dtypes are rejected; from_float_value records payload/diagonal/bucket/dtype/flag/list(shape) and the empty case; Distributed Shampoo re-wraps raw leaves with the flag used to quantise. Necessary conditions of C11.',
+        text='Static: bucket counts 127 / 32767; the integer cast is applied to jnp.round of (x [- diag]) / where(b > 0, b, 1) with the input itself as numerator (no pre-scaling that could overflow) and the axis-0 bucket max|x|/count re-expanded on axis 0; dequantisation is payload * bucket (+ diag of the stored diagonal, exactly); writer and reader handle the same dtype set and other dtypes are rejected; from_float_value records payload/diagonal/bucket/dtype/flag/list(shape) and the empty case; Distributed Shampoo re-wraps raw leaves with the flag used to quantise. Necessary conditions of C11. Also: the quantized root wrapper returns the three parts of one re-quantized value and dequantizes the statistic from its own parts; a kept quantized root keeps every part under one predicate (gate rules).',
         note='Trusted: jnp.round = round-to-nearest-even; integral floats cast exactly. Undecided: the half-bucket bound / idempotence over all float32 magnitudes (subnormal buckets flush to zero on this backend).',
         design='4/C11'),
     'C12': dict(
         technique='inductive cover invariant discharged by structural facts on the value graph of sm3.update_fn (order-fact lattice EXACT <= UB <= COVER(i)): reshape views, min/max combine, non-negative affine step with squared gradient, plain max over the complementary axes, same gradient / same statistic in the step',
-        text='Static, for every valuation of (rank 1?, normalize_grads, beta2 == 1, weight decay, beta1 == 1): accumulators are combined through one-hot reshapes by elementwise min (or max) into a pointwise bound, the statistic is beta2*bound + w*g^2 with w = 1-beta2 (1 when beta2 == 1), each new accumulator is a plain jnp.max of that statistic over exactly the other axes (rank 1: the statistic itself), the step preconditions the same (normalised) gradient by 1/sqrt(statistic + eps) before momentum, weight decay and -lr, beta2 == 1 gives monotone accumulators, accumulators are float32 zeros per axis. These discharge the induction step of the cover invariant and the AdaGrad/RMSProp step bound.',
+        text='Static, for every valuation of (rank 1?, normalize_grads, beta2 == 1, weight decay, beta1 == 1): accumulators are combined through one-hot reshapes by elementwise min (or max) into a pointwise bound, the statistic is beta2*bound + w*g^2 with w = 1-beta2 (1 when beta2 == 1), each new accumulator is a plain jnp.max of that statistic over exactly the other axes (rank 1: the statistic itself), the step preconditions the same (normalised) gradient by 1/sqrt(statistic + eps) before momentum, weight decay and -lr, beta2 == 1 gives monotone accumulators, accumulators are float32 zeros per axis. These discharge the induction step of the cover invariant and the AdaGrad/RMSProp step bound. Also: for the emitted step the quantizer is not transparent (the step is the float momentum, not its int8 round trip).',
         note='Trusted: beta2 in (0,1]; plain jnp.max is the true maximum. Undecided: exact equality with AdaGrad for rank 1 under int8 momentum quantisation (numerical).',
         design='4/C12'),
     'C13': dict(
         technique='LEN abstract domain (symbolic list lengths) on the value graph, pad-count normal form at every site, index-map rule for batch/unbatch, collective-axis and replica-index agreement, squeeze lint',
-        text='Static: the pad count is (-N) mod D at all six sites with the right D and the N == 0 special case agrees across sharded init/declaration/update; every list handed to batch (statistics, exponents, paddings, quantized parts, previous preconditioners incl. the _maybe path) has symbolic length N + to_pad with pads appended last and pad entries (identity, exponent 1, padding start 0); batch chunks with slice width == stride == n/D and unbatch re-emits row-major, results are zipped against the N-long per-statistic lists (dropping exactly the pads); axis_index/all_gather/psum name one axis, every batched operand is indexed by the same replica (0 on one device), roots are all_gather-ed then unbatched; no axis-less squeeze. Necessary conditions of C13.',
+        text='Static: the pad count is (-N) mod D at all six sites with the right D and the N == 0 special case agrees across sharded init/declaration/update; every list handed to batch (statistics, exponents, paddings, quantized parts, previous preconditioners incl. the _maybe path) has symbolic length N + to_pad with pads appended last and pad entries (identity, exponent 1, padding start 0); batch chunks with slice width == stride == n/D and unbatch re-emits row-major, results are zipped against the N-long per-statistic lists (dropping exactly the pads); axis_index/all_gather/psum name one axis, every batched operand is indexed by the same replica (0 on one device), roots are all_gather-ed then unbatched; no axis-less squeeze. Necessary conditions of C13. Also: the flat results are dealt back by a running index from 0 advancing by each state\'s count; each root is cut back to its own announced shape; zipped result lists are read from position 0; the sharded global arrays list real rows first, dummy rows last, and get D dummy rows exactly when nothing is preconditioned; the caller hands the stored statistics / preconditioners down unchanged.',
         note='Trusted: the caller builds the per-statistic lists in one loop (checked syntactically); numpy semantics of stack/split. Undecided: bitwise batch-size invariance of linear algebra; real-mesh execution.',
         design='4/C13'),
     'C14': dict(
@@ -84,7 +84,7 @@ CLAIMS = {
         design='4/C15'),
     'C16': dict(
         technique='exhaustiveness of the algorithm table, constant propagation through the factor functions, value-graph normal forms of the FD / OGD / AdaGrad updates per algorithm, plus the DEG rules of C09 for the OCO sketch',
-        text='Static: Algorithm members = OGD, ADA + factor-table keys, each bound to its own init/update, factor tuples as documented (S-AdaGrad: sketch 1, alpha factor 1, lr, rsqrt); for all four FD algorithms t\' = t + 1, sketch input (P e).at[-1].set(g * factor), rho = s[-1], e\' = sqrt((s-rho)(s+rho)), P\' = vt, alpha\' = alpha + factor * rho^2 with alpha_0 = delta, and the iterate formulas with the same safe inverse (cut-off exactly 0) inside and outside the sketch; OGD and diagonal AdaGrad equal their closed forms with h_0 = delta and the zero guard. Necessary conditions of C16.',
+        text='Static: Algorithm members = OGD, ADA + factor-table keys, each bound to its own init/update, factor tuples as documented (S-AdaGrad: sketch 1, alpha factor 1, lr, rsqrt); for all four FD algorithms t\' = t + 1, sketch input (P e).at[-1].set(g * factor), rho = s[-1], e\' = sqrt((s-rho)(s+rho)), P\' = vt, alpha\' = alpha + factor * rho^2 with alpha_0 = delta, and the iterate formulas with the same safe inverse (cut-off exactly 0) inside and outside the sketch; OGD and diagonal AdaGrad equal their closed forms with h_0 = delta and the zero guard. Necessary conditions of C16. Also: init() builds a fresh state on every call (the update functions mutate the state in place).',
         note='Trusted: svd returns singular values in descending order. Undecided: FD bracket, equality with full-matrix AdaGrad for low-rank histories (numerical).',
         design='4/C16'),
     'C17': dict(
